@@ -383,4 +383,201 @@ example : construct gcrypto ⟨true, ["#root"], ["#admin"], certA, ⟨.ec, 10⟩
 example : construct gcrypto ⟨true, ["#root"], ["#root"], { certA with sig := some 11 }, ⟨.ec, 10⟩⟩
     = .error .valueError := by rfl
 
+/-! ## the certificate world changes between validations; the key storage is an explicit object
+
+`Ndn.Cascade.runD` / `validateD` / `traceD`: a history of `validate i fuel o` and `world w` events over instances
+`cfgs i` (schema check, crypto, anchor, and the storage object the instance holds: an `EmptyKeyStorage` or the
+`MemoryKeyStorage` number `s`, possibly held by several instances).  Histories start in a fresh process (every storage
+object empty).  Vocabulary: `ChainC`, `TrustedD`, `trustOf`, `worldsOf`, `KeyStable` (`NdnProofs/Lemmas/Cascade.lean`). -/
+
+section dynamic
+variable (cfgs : Nat → Cfg N)
+
+/-- the state after a history that began in a fresh process in front of the network `w0` -/
+abbrev after (w0 : World N) (h : List (Event N)) : DState N := runD cfgs ⟨w0, fun _ => []⟩ h
+
+/-- **accept_of_chain_now.** Completeness, history-independent.  Whatever happened before — earlier failures (a
+    certificate that timed out or was Nacked), earlier states of the network, validations by this and by other
+    instances, sharing the storage object or not —: if at the time of the validation there is a chain
+    packet — certificate — … — anchor in the network AS IT IS NOW (every link allowed, every signature verifying, every
+    certificate retrievable), the instance accepts.  Hypothesis `KeyStable`: a name denotes one key — no state of the
+    network during the history served, under the name of a certificate retrievable now, other key bits (without it the
+    statement is false: second `example` below). -/
+theorem accept_of_chain_now (hc : ∀ i k o, Signed k o → (cfgs i).crypto k o = true)
+    (w0 : World N) (h : List (Event N)) (i fuel d : Nat) (o : Obj N)
+    (hstable : KeyStable (worldsOf w0 h) (after cfgs w0 h).world)
+    (hch : ChainD ((cfgs i).env (after cfgs w0 h).world) Signed d o) (hf : d < fuel) :
+    (validateD cfgs (after cfgs w0 h) i fuel o).verdict = some .accept := by
+  refine validate_complete_agree _ Signed (correct_env (cfgs i) Signed _ (hc i)) d o hch fuel _ ?_ hf
+  cases hst : (cfgs i).store with
+  | empty => exact cacheAgrees_nil _
+  | mem s =>
+    refine cacheAgrees_of_stable _ (worldsOf w0 h) hstable _ ?_
+    intro n k hl
+    exact stores_served cfgs (fun n k => ∃ w ∈ worldsOf w0 h, ∃ x, w (certInterest n) = some (.data x) ∧ x.name = n ∧
+        x.content = some k) h ⟨w0, fun _ => []⟩ (by intro s n k hl; simp [cacheLoad] at hl)
+      (fun w' hm n k x hw hxn hxc => ⟨w', hm, x, hw, hxn, hxc⟩) s n k hl
+
+/-- **accept_sound_with_cache.** Soundness with a cache.  If instance `i` accepts after any history, there is a chain
+    from the packet in which every link is allowed by `i`'s signing check and every signature verifies, and which either
+    reaches `i`'s anchor through certificates retrievable NOW, or ends at a key that `i`'s storage object vouches for:
+    the key of a certificate that was retrievable, under exactly that name, at the time of an earlier `validate` event
+    of an instance holding the same storage object, and had such a chain — to the anchor of THAT instance, by THAT
+    instance's signing check — at that time (`TrustedD`).  An `EmptyKeyStorage` vouches for nothing. -/
+theorem accept_sound_with_cache (hu : ∀ i k o, (cfgs i).crypto k o = true → Signed k o)
+    (w0 : World N) (h : List (Event N)) (i fuel : Nat) (o : Obj N)
+    (hacc : (validateD cfgs (after cfgs w0 h) i fuel o).verdict = some .accept) :
+    ∃ d, ChainC (AllowedR (cfgs i).allowed) ((cfgs i).env (after cfgs w0 h).world) Signed
+      (trustOf (TrustedD (allowedOf cfgs) cfgs Signed w0 noTrust h) (cfgs i).store) d o := by
+  have hinv := storesTrusted_run cfgs Signed hu h ⟨w0, fun _ => []⟩ noTrust (fun s => trusts_nil _)
+  exact validate_sound_c ((cfgs i).env (after cfgs w0 h).world) Signed (unforgeable_env (cfgs i) Signed _ (hu i)) _
+    fuel _ o (trusts_loadStore _ _ hinv (cfgs i).store) hacc
+
+omit [DecidableEq N] in
+/-- **trusted_keys_were_served.** What a storage object vouches for after a history was served by the network, under
+    that name and with that key, in one of the states it went through. -/
+theorem trusted_keys_were_served (w0 : World N) (h : List (Event N)) (s : Nat) (n : N) (k : Key)
+    (ht : TrustedD (allowedOf cfgs) cfgs Signed w0 noTrust h s n k) :
+    ∃ w ∈ worldsOf w0 h, ∃ x, w (certInterest n) = some (.data x) ∧ x.name = n ∧ x.content = some k :=
+  trustedD_served (allowedOf cfgs) cfgs Signed (fun n k => ∃ w ∈ worldsOf w0 h, ∃ x, w (certInterest n) = some (.data x) ∧
+      x.name = n ∧ x.content = some k) h w0 noTrust (fun _ _ _ hf => hf.elim)
+    (fun w' hm _ _ x hw hxn hxc => ⟨w', hm, x, hw, hxn, hxc⟩) s n k ht
+
+/-- **empty_storage_verdict_iff_chain.** An instance that was given an `EmptyKeyStorage`: at every step of every
+    history, a verdict is `accept` exactly when the packet has a chain in the network as it is now. -/
+theorem empty_storage_verdict_iff_chain (hu : ∀ i k o, (cfgs i).crypto k o = true → Signed k o)
+    (hc : ∀ i k o, Signed k o → (cfgs i).crypto k o = true)
+    (w0 : World N) (h : List (Event N)) (i fuel : Nat) (o : Obj N) (v : Verdict) (he : (cfgs i).store = .empty)
+    (e : (validateD cfgs (after cfgs w0 h) i fuel o).verdict = some v) :
+    v = .accept ↔ Chain ((cfgs i).env (after cfgs w0 h).world) Signed o := by
+  simp only [validateD, he, loadStore] at e
+  exact verdict_iff_chain _ Signed (unforgeable_env (cfgs i) Signed _ (hu i)) (correct_env (cfgs i) Signed _ (hc i))
+    fuel [] o (cacheInv_nil _ _) v e
+
+/-- **instances_independent.** Isolation.  What instance `i` (holding the storage object `s`) answers — verdict,
+    certificate Interests, what it leaves in its storage — after a history is what it answers after the same history
+    with every `validate` event of an instance that does not hold `s` deleted: instances that do not share a storage
+    object do not influence each other. -/
+theorem instances_independent (st : DState N) (h : List (Event N)) (i fuel s : Nat) (o : Obj N)
+    (hs : (cfgs i).store = .mem s) :
+    validateD cfgs (runD cfgs st h) i fuel o =
+      validateD cfgs (runD cfgs st (h.filter (touches cfgs s))) i fuel o := by
+  obtain ⟨hw, hst⟩ := runD_filter cfgs s h st st rfl rfl
+  simp only [validateD, hs, loadStore, hw, hst]
+
+/-- **empty_storage_independent.** … and an instance holding an `EmptyKeyStorage` is influenced by no `validate`
+    event at all, its own included. -/
+theorem empty_storage_independent (st : DState N) (h : List (Event N)) (i fuel : Nat) (o : Obj N)
+    (he : (cfgs i).store = .empty) :
+    validateD cfgs (runD cfgs st h) i fuel o = validateD cfgs (runD cfgs st (h.filter isWorld)) i fuel o := by
+  have hw := runD_world_only cfgs h st st rfl
+  simp only [validateD, he, loadStore, hw]
+
+/-- **static_refinement.** With no `world` event and one storage object per instance the model with events is the
+    static model (`runSys` / `traceSys`): same storages, same verdicts, same certificate Interests. -/
+theorem static_refinement (hpriv : ∀ i, (cfgs i).store = .mem i) (w : World N) (h : List (Nat × Nat × Obj N))
+    (cs : Nat → Cache N) :
+    (runD cfgs ⟨w, cs⟩ (staticEvents h)).stores = runSys (fun i => (cfgs i).env w) cs h ∧
+    (runD cfgs ⟨w, cs⟩ (staticEvents h)).world = w ∧
+    traceD cfgs ⟨w, cs⟩ (staticEvents h) = traceSys (fun i => (cfgs i).env w) cs h :=
+  runD_static cfgs hpriv w h cs
+
+/-- **static_history_verdict_iff_chain.** (`system_verdict_iff_chain` as a corollary) In a history without `world`
+    events over instances with private storage objects, a verdict is `accept` exactly when a chain exists. -/
+theorem static_history_verdict_iff_chain (hpriv : ∀ i, (cfgs i).store = .mem i)
+    (hu : ∀ i k o, (cfgs i).crypto k o = true → Signed k o) (hc : ∀ i k o, Signed k o → (cfgs i).crypto k o = true)
+    (w : World N) (h : List (Nat × Nat × Obj N)) (i fuel : Nat) (o : Obj N) (v : Verdict)
+    (e : (validateD cfgs (after cfgs w (staticEvents h)) i fuel o).verdict = some v) :
+    v = .accept ↔ Chain ((cfgs i).env w) Signed o := by
+  obtain ⟨hst, hw, _⟩ := static_refinement cfgs hpriv w h (fun _ => [])
+  simp only [validateD, hpriv i, loadStore, after, hst, hw] at e
+  exact system_verdict_iff_chain Signed (fun i => (cfgs i).env w)
+    (fun i => unforgeable_env (cfgs i) Signed w (hu i)) (fun i => correct_env (cfgs i) Signed w (hc i)) h i fuel o v e
+
+end dynamic
+
+/-! ### non-vacuity: certificate 3 appears, disappears, is replaced -/
+
+/-- instances 0 and 1 hold the storage object 0, instance 2 its own, instance 3 an `EmptyKeyStorage`; all anchored at A -/
+def gcfgs (i : Nat) : Cfg Name :=
+  ⟨gallowed, gcrypto, 1, ⟨.ec, 10⟩, if i ≤ 1 then .mem 0 else if i = 2 then .mem 2 else .empty⟩
+
+def wNone : World Name := fun _ => none
+def wTimeout : World Name := fun i => if i.name = 3 then some .timeout else none
+/-- another certificate (another key) under the name 3, also issued by A -/
+def cert3' : Obj Name := ⟨3, some 1, .ecdsa, some 10, some ⟨.ec, 31⟩⟩
+def wRepl : World Name := fun i => if i.name = 3 then some (.data cert3') else none
+/-- a packet signed with the key of `cert3'` -/
+def pkt4' : Obj Name := ⟨4, some 3, .ecdsa, some 31, none⟩
+
+theorem gcfg_unforgeable : ∀ i k (o : Obj Name), (gcfgs i).crypto k o = true → GSigned k o := by
+  intro i k o h; simpa [gcfgs, gcrypto, GSigned] using h
+
+theorem gcfg_correct : ∀ i k (o : Obj Name), GSigned k o → (gcfgs i).crypto k o = true := by
+  intro i k o h; simpa [gcfgs, gcrypto, GSigned] using h
+
+/-- APPEAR: the fetch of certificate 3 times out, the packet is refused; the certificate becomes retrievable; the same
+    instance and a fresh one accept (`accept_of_chain_now` applies: the hypothesis `KeyStable` holds) -/
+example : traceD gcfgs ⟨wTimeout, fun _ => []⟩
+      [.validate 0 3 pkt4, .world gworld, .validate 0 3 pkt4, .validate 2 3 pkt4] =
+    [(some .reject, [⟨3, false, true, 4000⟩]), (some .accept, [⟨3, false, true, 4000⟩]),
+     (some .accept, [⟨3, false, true, 4000⟩])] := by decide
+
+example : (validateD gcfgs (after gcfgs wTimeout [.validate 0 3 pkt4, .world gworld]) 0 3 pkt4).verdict = some .accept := by
+  refine accept_of_chain_now GSigned gcfgs gcfg_correct wTimeout _ 0 3 1 pkt4 ?_ ?_ (by omega)
+  · intro w hm n c c' hw hcn hw' hcn'
+    simp only [worldsOf, List.mem_cons, List.not_mem_nil, or_false] at hm
+    have hnow : (after gcfgs wTimeout [.validate 0 3 pkt4, .world gworld]).world = gworld := rfl
+    rw [hnow] at hw'
+    rcases hm with rfl | rfl
+    · simp only [wTimeout] at hw; split at hw <;> simp at hw
+    · rw [hw] at hw'; cases hw'; rfl
+  · exact chain_pkt4
+
+/-- DISAPPEAR (the cache, exhibited): the packet is accepted and the key of certificate 3 stored; the certificate is
+    withdrawn from the network; the same instance, and instance 1 that shares its storage object, still accept — without
+    sending an Interest —, although NO chain exists in the network as it is now; instance 2 (own storage) and instance 3
+    (`EmptyKeyStorage`) refuse. -/
+example : traceD gcfgs ⟨gworld, fun _ => []⟩
+      [.validate 0 3 pkt4, .world wNone, .validate 0 3 pkt4, .validate 1 3 pkt4, .validate 2 3 pkt4, .validate 3 3 pkt4] =
+    [(some .accept, [⟨3, false, true, 4000⟩]), (some .accept, []), (some .accept, []),
+     (some .reject, [⟨3, false, true, 4000⟩]), (some .reject, [⟨3, false, true, 4000⟩])] := by decide
+
+example : ¬ Chain ((gcfgs 0).env wNone) GSigned pkt4 := by
+  intro hch
+  have hr : (validate ((gcfgs 0).env wNone) 5 [] pkt4).verdict = some .reject := by decide
+  have := (verdict_iff_chain ((gcfgs 0).env wNone) GSigned (gcfg_unforgeable 0) (gcfg_correct 0) 5 [] pkt4
+    (cacheInv_nil _ _) .reject hr).mpr hch
+  cases this
+
+/-- … what `accept_sound_with_cache` says about that acceptance: a chain that ends at a key the storage vouches for -/
+example : ∃ d, ChainC (AllowedR gallowed) ((gcfgs 1).env wNone) GSigned
+    (TrustedD (allowedOf gcfgs) gcfgs GSigned gworld noTrust [.validate 0 3 pkt4, .world wNone] 0) d pkt4 :=
+  accept_sound_with_cache GSigned gcfgs gcfg_unforgeable gworld [.validate 0 3 pkt4, .world wNone] 1 3 pkt4 (by decide)
+
+/-- REPLACE: after the key of certificate 3 was stored, ANOTHER certificate (another key) is published under the same
+    name, and a packet signed with the new key has a chain in the network as it is now — the instance that holds the old
+    key refuses it (`KeyStable` fails: `accept_of_chain_now` is false without it), an instance with its own storage
+    accepts it -/
+example : traceD gcfgs ⟨gworld, fun _ => []⟩
+      [.validate 0 3 pkt4, .world wRepl, .validate 0 3 pkt4', .validate 2 3 pkt4', .validate 0 3 pkt4] =
+    [(some .accept, [⟨3, false, true, 4000⟩]), (some .reject, []), (some .accept, [⟨3, false, true, 4000⟩]),
+     (some .accept, [])] := by decide
+
+example : ChainD ((gcfgs 0).env wRepl) GSigned 1 pkt4' :=
+  .step pkt4' 3 cert3' ⟨.ec, 31⟩ 0 rfl (by decide) rfl rfl rfl rfl ⟨rfl, rfl⟩
+    (.anchor cert3' rfl rfl ⟨rfl, rfl⟩)
+
+/-- isolation applies: instance 2's answer does not depend on what instances 0, 1, 3 validated -/
+example (h : List (Event Name)) (f : Nat) (o : Obj Name) :
+    validateD gcfgs (after gcfgs gworld h) 2 f o =
+      validateD gcfgs (after gcfgs gworld (h.filter (touches gcfgs 2))) 2 f o :=
+  instances_independent gcfgs _ h 2 f 2 o rfl
+
+/-- an instance with an `EmptyKeyStorage` is exact at every step -/
+example (h : List (Event Name)) (f : Nat) (v : Verdict)
+    (e : (validateD gcfgs (after gcfgs gworld h) 3 f pkt4).verdict = some v) :
+    v = .accept ↔ Chain ((gcfgs 3).env (after gcfgs gworld h).world) GSigned pkt4 :=
+  empty_storage_verdict_iff_chain GSigned gcfgs gcfg_unforgeable gcfg_correct gworld h 3 f pkt4 v rfl e
+
 end Ndn.C14
